@@ -32,7 +32,7 @@ def run_property(pid: str, tier: str, overlay=None, quiet=False, write=True, ctx
     if tier == "thorough" and write:
         from sa import selftest
 
-        rep.selftest = selftest.run_for(pid, quiet=quiet)
+        rep.selftest = selftest.run_for(pid, quiet=quiet, baseline_keys=[f.key for f in rep.findings])
     code = rep.finish(write=write)
     return code, rep
 
